@@ -151,6 +151,14 @@ func grid(tier string) []cfgCase {
 			out = append(out, cfgCase{[]vspec{u}, 1}, cfgCase{[]vspec{u, {16, 5, 1, 1, 2, 0}}, 1}, cfgCase{[]vspec{{16, 0, 1, 1, 2, 0}, u}, 2})
 		}
 	}
+	// several randomised values with their OWN seeds next to several finite
+	// values without one (which draw from the generator-wide PRNG): a second
+	// generator built after the first one ran out must repeat its sequence
+	for _, rk := range [][2]int{{6, 6}, {6, 10}, {2, 12}, {14, 6}} {
+		for _, rep := range []int32{2, 3} {
+			out = append(out, cfgCase{[]vspec{{rk[0], 0, 1, 1, rep, 7}, {16, 0, 1, 1, 1, 0}, {rk[1], 1, 1, 1, rep, 9}, {5, 1, 0, 2, 1, 0}, {15, 2, 1, 1, 1, 0}}, 3})
+		}
+	}
 	var red []vspec
 	kinds := []int{0, 5, 15}
 	if tier == "thorough" {
